@@ -33,7 +33,7 @@ CLAIMED = {
          "spawn_blocking timing explored in three modes."),
  "C15": ("every filesystem action requested by every public operation under hostile keys: paths confined to the cache directory (or the explicit destination), components only fixed names / algorithm names / digest slices / temp names, read-only calls perform no mutation (also after a removal), extraction over existing destinations and with an unusable tmp/, confusable keys independent, over-eager cleanup above the cache root",
          "Observed at the library-call boundary of the model (what the modelled crates do below is outside the claim)."),
- "C16": ("every ordered pair of store entry points for the same bytes: same address, one content file, every instant of the second store inspected on the action trace (in-place modification replayed by killing the process right after the action); algorithm pairs coexist",
+ "C16": ("every ordered pair of store entry points for the same bytes: same address, one content file, every instant of the second store inspected on the action trace (in-place modification replayed by killing the process right after the action); the same bytes stored again over a copy damaged in place (arbitrary other bytes, incl. equal length) must leave the new key and the returned address resolving to the data; algorithm pairs coexist",
          "Sequential second writers (concurrent ones are C07)."),
  "C17": ("library output compared byte for byte (paths and file bytes, symbolic time/size) with an independent ~100-line reference writer, and reference-written caches read back through the library",
          "Reference = mirsym/refmodel.py, written from the format description."),
